@@ -39,6 +39,7 @@ func runC03(p *Program, r *Report) {
 	c14side(p, r, "C03.side")
 	c14sideUse(p, r, "C03.side.use")
 	c04state(p, r, "C03.state")
+	cReasons(p, r, "C03.reasons")
 	// frames that arrive in the same packet as the handshake (server side)
 	sub := newReport(r.Prop, r.Tier)
 	c11gate(p, sub, "C03.handoff")
